@@ -366,9 +366,39 @@ Proof.
 Qed.
 Print Assumptions buf_roundtrip.
 
-Theorem string_roundtrip : forall s rest, N.of_nat (length s) < two32 ->
+(* read_string validates UTF-8 (std::str::from_utf8): only well-formed strings round trip *)
+Theorem string_roundtrip : forall s rest, N.of_nat (length s) < two32 -> utf8_valid s = true ->
   read_string (write_string s ++ rest) = Ok s rest.
-Proof. exact buf_roundtrip. Qed.
+Proof.
+  intros s rest Hl Hu. unfold read_string, write_string. rewrite buf_roundtrip by exact Hl.
+  cbn [bind]. rewrite Hu. reflexivity.
+Qed.
+Print Assumptions string_roundtrip.
+
+(* an ill-formed string is rejected by the reader: it does not round trip *)
+Theorem string_invalid_rejected : forall s rest, N.of_nat (length s) < two32 -> utf8_valid s = false ->
+  read_string (write_string s ++ rest) = Err UnexpectedValue.
+Proof.
+  intros s rest Hl Hu. unfold read_string, write_string. rewrite buf_roundtrip by exact Hl.
+  cbn [bind]. rewrite Hu. reflexivity.
+Qed.
+
+(* non-vacuity: "h\u00e9\u1f600" (1-, 2- and 4-byte sequences) is valid; a lone continuation byte, an overlong
+   form, a surrogate and a truncated sequence are not *)
+Example utf8_valid_example : utf8_valid [104; 195; 169; 240; 159; 152; 128] = true.
+Proof. vm_compute. reflexivity. Qed.
+Example utf8_invalid_examples :
+  utf8_valid [128] = false /\ utf8_valid [192; 128] = false /\ utf8_valid [237; 160; 128] = false /\
+  utf8_valid [240; 159; 152] = false /\ utf8_valid [244; 144; 128; 128] = false /\ utf8_valid [255] = false.
+Proof. vm_compute. repeat split; reflexivity. Qed.
+
+Theorem read_string_ok_valid : forall bs s rest, read_string bs = Ok s rest ->
+  read_buf bs = Ok s rest /\ utf8_valid s = true.
+Proof.
+  intros bs s rest H. unfold read_string in H.
+  destruct (read_buf bs) as [b r| | |]; cbn [bind] in H; try discriminate.
+  destruct (utf8_valid b) eqn:E; [|discriminate]. inversion H; subst. split; [reflexivity|exact E].
+Qed.
 
 Theorem write_buf_bytes : forall b, bytes_ok b = true -> bytes_ok (write_buf b) = true.
 Proof.
@@ -388,14 +418,13 @@ Lemma shl_i64_exact : forall x len, x <> 0 -> x * 2 ^ len < 2 ^ 64 ->
 Proof.
   intros x len Hx H. unfold shl_i64_checked.
   pose proof (shift_lt_width _ _ _ Hx H) as Hl.
-  replace (64 <=? len) with false by lia.
+  rewrite (N.mod_small len 64) by exact Hl.
   rewrite N.shiftl_mul_pow2. change two64 with (2 ^ 64). rewrite N.mod_small by exact H. reflexivity.
 Qed.
 
-Lemma shl_i64_zero : forall len, len < 64 -> shl_i64_checked 0 len = Some 0.
+Lemma shl_i64_zero : forall len, shl_i64_checked 0 len = Some 0.
 Proof.
-  intros len Hl. unfold shl_i64_checked. replace (64 <=? len) with false by lia.
-  rewrite N.shiftl_0_l. reflexivity.
+  intros len. unfold shl_i64_checked. rewrite N.shiftl_0_l. reflexivity.
 Qed.
 
 Lemma i64_tail_gen : forall limit, 63 <= limit -> forall fuel v acc len rest neg,
@@ -417,7 +446,7 @@ Proof.
       { eapply N.le_lt_trans; [|exact Hb]. apply N.mul_le_mono_r. apply N.mod_le; lia. }
       assert (Hsh : shl_i64_checked (v mod 128) len = Some (v mod 128 * 2 ^ len)).
       { destruct (N.eq_dec (v mod 128) 0) as [Hz|Hnz].
-        - rewrite Hz. rewrite shl_i64_zero by exact Hl. reflexivity.
+        - rewrite Hz. rewrite shl_i64_zero. reflexivity.
         - apply shl_i64_exact; assumption. }
       rewrite Hsh.
       replace (128 + v mod 128 <? 128) with false by lia.
@@ -521,91 +550,69 @@ Proof.
 Qed.
 
 (* ------------------------------------------------------------------------------------------------ *)
-(* the signed reader panics: witnesses, and the only panic sites                                    *)
+(* the signed readers are total: wrapping shift and wrapping negation, no panic site is reachable   *)
 (* ------------------------------------------------------------------------------------------------ *)
 
+(* the inputs that used to hit `<< len` with len >= 64 and `-i64::MIN` *)
 Definition shl_i64_witness : list N := [128; 128; 128; 128; 128; 128; 128; 128; 128; 128; 0].
 Definition neg_i64_witness : list N := [192; 128; 128; 128; 128; 128; 128; 128; 128; 2].
 
-Theorem read_var_i64_refuted : exists bs, read_var_i64 bs = Panic P_SHL_I64.
-Proof. exists shl_i64_witness. vm_compute. reflexivity. Qed.
-Print Assumptions read_var_i64_refuted.
+Lemma shl_i64_checked_some : forall x len, exists sh, shl_i64_checked x len = Some sh.
+Proof. intros x len. unfold shl_i64_checked. eexists. reflexivity. Qed.
 
-Theorem read_var_i64_refuted_neg : exists bs, read_var_i64 bs = Panic P_NEG_I64.
-Proof. exists neg_i64_witness. vm_compute. reflexivity. Qed.
-Print Assumptions read_var_i64_refuted_neg.
+Lemma finish_i64_some : forall pat neg, exists z, finish_i64 pat neg = Some z.
+Proof.
+  intros pat neg. unfold finish_i64. destruct neg; [destruct (pat =? two63)|]; eexists; reflexivity.
+Qed.
 
-Theorem read_signed_refuted : exists bs, read_signed bs = Panic P_SHL_I64.
-Proof. exists shl_i64_witness. vm_compute. reflexivity. Qed.
-
-Theorem read_signed_refuted_neg : exists bs, read_signed bs = Panic P_NEG_I64.
-Proof. exists neg_i64_witness. vm_compute. reflexivity. Qed.
-
-Definition i64_panics_only {A} (r : res A) : Prop :=
-  match r with Panic s => s = P_SHL_I64 \/ s = P_NEG_I64 | Fuel => False | _ => True end.
-
-Lemma read_var_i64_loop_panics : forall limit bs num len neg,
-  match read_var_i64_loop limit bs num len neg with Panic s => s = P_SHL_I64 | Fuel => False | _ => True end.
+Lemma read_var_i64_loop_total : forall limit bs num len neg,
+  no_panic_fuel (read_var_i64_loop limit bs num len neg).
 Proof.
   intro limit. induction bs as [|r rest IH]; intros num len neg; cbn [read_var_i64_loop].
   - exact I.
-  - destruct (shl_i64_checked (r mod 128) len); [|reflexivity].
+  - destruct (shl_i64_checked_some (r mod 128) len) as [sh ->].
     destruct (r <? 128); [exact I|]. destruct (limit <? len + 7); [exact I|]. apply IH.
 Qed.
 
-Lemma read_var_i64_gen_panics : forall limit bs, i64_panics_only (read_var_i64_gen limit bs).
+Lemma read_var_i64_gen_total : forall limit bs, no_panic_fuel (read_var_i64_gen limit bs).
 Proof.
   intros limit bs. unfold read_var_i64_gen. destruct bs as [|r rest]; [exact I|].
   destruct (r <? 128).
-  - cbn [bind fst snd]. destruct (finish_i64 _ _); cbn; auto.
-  - pose proof (read_var_i64_loop_panics limit rest (r mod 64) 6 (64 <=? r mod 128)) as H.
+  - cbn [bind fst snd]. destruct (finish_i64_some (r mod 64) (64 <=? r mod 128)) as [z ->]. exact I.
+  - pose proof (read_var_i64_loop_total limit rest (r mod 64) 6 (64 <=? r mod 128)) as H.
     destruct (read_var_i64_loop limit rest (r mod 64) 6 (64 <=? r mod 128)) as [[p n] rest'| | |];
-      cbn [bind fst snd].
-    + destruct (finish_i64 p n); cbn; auto.
-    + exact I.
-    + cbn. auto.
-    + exact H.
+      cbn [bind fst snd]; try exact H; try exact I.
+    destruct (finish_i64_some p n) as [z ->]. exact I.
 Qed.
 
-Theorem read_var_i64_panics : forall bs,
-  match read_var_i64 bs with Panic s => s = P_SHL_I64 \/ s = P_NEG_I64 | Fuel => False | _ => True end.
+Theorem read_var_i64_total : forall bs,
+  match read_var_i64 bs with Panic _ | Fuel => False | _ => True end.
 Proof.
-  intro bs. unfold read_var_i64, rmap. pose proof (read_var_i64_gen_panics VARINT_LIMIT_READ_VAR_I64 bs) as H.
+  intro bs. unfold read_var_i64, rmap. pose proof (read_var_i64_gen_total VARINT_LIMIT_READ_VAR_I64 bs) as H.
   destruct (read_var_i64_gen VARINT_LIMIT_READ_VAR_I64 bs); cbn [bind]; exact H.
 Qed.
+Print Assumptions read_var_i64_total.
+
+Theorem read_signed_total : forall bs,
+  match read_signed bs with Panic _ | Fuel => False | _ => True end.
+Proof. intro bs. apply read_var_i64_gen_total. Qed.
+Print Assumptions read_signed_total.
+
+(* kept under the old name: the set of reachable panic sites is now empty *)
+Theorem read_var_i64_panics : forall bs,
+  match read_var_i64 bs with Panic _ | Fuel => False | _ => True end.
+Proof. exact read_var_i64_total. Qed.
 Print Assumptions read_var_i64_panics.
 
 Theorem read_signed_panics : forall bs,
-  match read_signed bs with Panic s => s = P_SHL_I64 \/ s = P_NEG_I64 | Fuel => False | _ => True end.
-Proof. intro bs. apply read_var_i64_gen_panics. Qed.
+  match read_signed bs with Panic _ | Fuel => False | _ => True end.
+Proof. exact read_signed_total. Qed.
 
-(* minimality of the shift witness: fewer than 11 bytes never reach a shift amount >= 64 *)
-Lemma read_var_i64_loop_no_shl_panic : forall limit bs num len neg,
-  len + 7 * N.of_nat (length bs) < 71 ->
-  read_var_i64_loop limit bs num len neg <> Panic P_SHL_I64.
-Proof.
-  intro limit. induction bs as [|r rest IH]; intros num len neg Hl; cbn [read_var_i64_loop].
-  - discriminate.
-  - cbn [length] in Hl. unfold shl_i64_checked. replace (64 <=? len) with false by lia.
-    destruct (r <? 128); [discriminate|]. destruct (limit <? len + 7); [discriminate|].
-    apply IH. lia.
-Qed.
-
-Theorem read_var_i64_shl_witness_minimal : forall bs, (length bs <= 10)%nat ->
-  read_var_i64 bs <> Panic P_SHL_I64.
-Proof.
-  intros bs Hl. unfold read_var_i64, rmap, read_var_i64_gen. destruct bs as [|r rest]; [discriminate|].
-  cbn [length] in Hl. destruct (r <? 128).
-  - cbn [bind fst snd]. destruct (finish_i64 _ _); cbn; discriminate.
-  - pose proof (read_var_i64_loop_no_shl_panic VARINT_LIMIT_READ_VAR_I64 rest (r mod 64) 6 (64 <=? r mod 128)) as H.
-    destruct (read_var_i64_loop VARINT_LIMIT_READ_VAR_I64 rest (r mod 64) 6 (64 <=? r mod 128)) as [[p n] rest'| | |];
-      cbn [bind fst snd].
-    + destruct (finish_i64 p n); cbn; discriminate.
-    + discriminate.
-    + intro E. apply H; [lia|]. inversion E. reflexivity.
-    + discriminate.
-Qed.
-Print Assumptions read_var_i64_shl_witness_minimal.
+(* the former panic witnesses now decode (wrapping semantics) *)
+Example read_var_i64_former_witnesses :
+  read_var_i64 shl_i64_witness = Ok 0%Z [] /\
+  read_var_i64 neg_i64_witness = Ok (- Z.of_N two63)%Z [].
+Proof. vm_compute. split; reflexivity. Qed.
 
 (* ------------------------------------------------------------------------------------------------ *)
 (* consumption of the signed reader (used by AnyProofs for the fuel bound)                          *)
@@ -673,3 +680,60 @@ Proof.
   destruct (read_var_u32 bs) as [len r| | |] eqn:E; cbn [bind] in H; try discriminate.
   apply read_var_u32_shrinks in E. apply read_exact_shrinks in H. lia.
 Qed.
+
+Theorem read_string_total : forall bs,
+  match read_string bs with Panic _ | Fuel => False | _ => True end.
+Proof.
+  intro bs. unfold read_string. pose proof (read_buf_total bs) as H.
+  destruct (read_buf bs) as [s rest| | |]; cbn [bind]; try exact H; try exact I.
+  destruct (utf8_valid s); exact I.
+Qed.
+Print Assumptions read_string_total.
+
+Theorem read_string_shrinks : forall bs s rest,
+  read_string bs = Ok s rest -> (length rest < length bs)%nat.
+Proof.
+  intros bs s rest H. apply read_string_ok_valid in H. destruct H as [H _].
+  eapply read_buf_shrinks. exact H.
+Qed.
+Print Assumptions read_string_shrinks.
+
+(* ------------------------------------------------------------------------------------------------ *)
+(* well-formed strings and binary payloads (shared by the later files)                              *)
+(* ------------------------------------------------------------------------------------------------ *)
+
+(* a binary payload: bytes, length fits the u32 length prefix *)
+Definition wf_bin (b : list N) : bool := bytes_ok b && (N.of_nat (length b) <? two32).
+(* a string: additionally well-formed UTF-8 (read_string rejects anything else) *)
+Definition wf_str (s : list N) : bool := wf_bin s && utf8_valid s.
+
+Lemma wf_bin_len : forall b, wf_bin b = true -> N.of_nat (length b) < two32.
+Proof. intros b H. unfold wf_bin in H. apply andb_prop in H. lia. Qed.
+
+Lemma wf_str_len : forall s, wf_str s = true -> N.of_nat (length s) < two32.
+Proof. intros s H. unfold wf_str in H. apply andb_prop in H. destruct H as [H _]. apply wf_bin_len. exact H. Qed.
+
+Lemma wf_str_utf8 : forall s, wf_str s = true -> utf8_valid s = true.
+Proof. intros s H. unfold wf_str in H. apply andb_prop in H. tauto. Qed.
+
+Lemma bin_roundtrip : forall b rest, wf_bin b = true -> read_buf (write_buf b ++ rest) = Ok b rest.
+Proof. intros b rest H. apply buf_roundtrip. apply wf_bin_len. exact H. Qed.
+
+Lemma str_roundtrip : forall s rest, wf_str s = true -> read_string (write_string s ++ rest) = Ok s rest.
+Proof. intros s rest H. apply string_roundtrip; [apply wf_str_len|apply wf_str_utf8]; exact H. Qed.
+
+(* what read_string returns is a well-formed string as soon as the input consists of bytes *)
+Lemma bytes_ok_app : forall a b, bytes_ok (a ++ b) = bytes_ok a && bytes_ok b.
+Proof. intros a b. unfold bytes_ok. apply forallb_app. Qed.
+
+Theorem read_string_wf : forall bs s rest, bytes_ok bs = true -> read_string bs = Ok s rest -> wf_str s = true.
+Proof.
+  intros bs s rest Hb H. apply read_string_ok_valid in H. destruct H as [H Hu].
+  unfold read_buf in H. destruct (read_var_u32 bs) as [len r| | |] eqn:E; cbn [bind] in H; try discriminate.
+  pose proof (read_var_u32_range _ _ _ E) as Hr.
+  apply read_var_u32_suffix in E. destruct E as (pre & -> & _).
+  apply read_exact_shrinks in H. destruct H as (_ & Hlen & ->).
+  rewrite !bytes_ok_app in Hb. apply andb_prop in Hb. destruct Hb as [_ Hb]. apply andb_prop in Hb. destruct Hb as [Hs _].
+  unfold wf_str, wf_bin. rewrite Hs, Hu. cbn [andb]. rewrite andb_true_r. lia.
+Qed.
+Print Assumptions read_string_wf.
